@@ -117,8 +117,14 @@ impl Ctx {
 
     pub fn gen_spec(&mut self, nops: usize) -> Spec {
         self.next_id = 1;
-        let kind = *self.rng.pick(&[Kind::Boxed, Kind::Fixed, Kind::Fixed, Kind::Bump, Kind::Bump, Kind::Mut, Kind::Rev]);
-        let zst = self.rng.chance(1, 4);
+        // profile `mutgrow`: the exclusive-borrow collections only, filled across chunk boundaries
+        let mutgrow = self.profile == "mutgrow";
+        let kind = if mutgrow {
+            *self.rng.pick(&[Kind::Mut, Kind::Rev])
+        } else {
+            *self.rng.pick(&[Kind::Boxed, Kind::Fixed, Kind::Fixed, Kind::Bump, Kind::Bump, Kind::Mut, Kind::Rev])
+        };
+        let zst = !mutgrow && self.rng.chance(1, 4);
         let settings = self.rng.below(4) as u8;
         let len = match self.rng.below(10) {
             0 => 0,
@@ -170,9 +176,51 @@ impl Ctx {
         if kind == Kind::Rev {
             choices = vec![2, 3, 4, 4, 5, 5, 6, 6, 7, 7, 7, 8, 8, 8, 9, 9, 10, 10, 13, 15, 15, 16, 17, 20, 21];
         }
-        let c = *self.rng.pick(&choices);
+        let mut c = *self.rng.pick(&choices);
         let mut oracle = Vec::new();
-        let op = match c {
+        // profile `mutgrow`: mostly requests that do not fit what the vector owns, so that it has to move on into a
+        // bigger chunk (partially filled, full, empty — whatever the trace made of it)
+        let grow_n = if self.profile == "mutgrow" && self.rng.chance(3, 5) {
+            c = *self.rng.pick(&[7u8, 9, 9, 10, 15, 16, 17, 20]);
+            Some(match self.rng.below(3) {
+                0 => 3 + self.rng.below(10) as usize,
+                1 => 12 + self.rng.below(30) as usize,
+                _ => 40 + self.rng.below(80) as usize,
+            })
+        } else {
+            None
+        };
+        if let Some(n) = grow_n {
+            self.count(if len + n > cap { "mutgrow:request beyond the capacity" } else { "mutgrow:request fits" });
+        }
+        let op = match (c, grow_n) {
+            (9, Some(n)) => {
+                for _ in 0..n {
+                    let id = self.fresh();
+                    oracle.push(Oc::Ret(id));
+                }
+                Op::ExtendClone(n)
+            }
+            (10, Some(n)) => {
+                let n = len + n;
+                for _ in 0..n.saturating_sub(len + 1) {
+                    let id = self.fresh();
+                    oracle.push(Oc::Ret(id));
+                }
+                Op::Resize(n, self.fresh())
+            }
+            (15, Some(n)) => Op::Append((0..n.min(60)).map(|_| self.fresh()).collect()),
+            (16, Some(n)) => Op::Reserve(n),
+            (17, Some(n)) => Op::ReserveExact(n),
+            (20, Some(n)) => {
+                let n = len + n;
+                for _ in 0..n.saturating_sub(len) {
+                    let id = self.fresh();
+                    oracle.push(Oc::Ret(id));
+                }
+                Op::ResizeWith(n)
+            }
+            _ => match c {
             0 => {
                 for _ in 0..len {
                     oracle.push(Oc::Ret(u64::from(self.rng.chance(2, 3))));
@@ -401,6 +449,7 @@ impl Ctx {
                 }
                 Op::Splice(s, e, ids, pulls, hint, lie)
             }
+            },
         };
         let _ = cap;
         // the same operation through another route of the API now and then
@@ -410,7 +459,7 @@ impl Ctx {
                 Op::Insert(..) => Some(1 + self.rng.below(2) as u8),
                 Op::Reserve(_) | Op::ExtendClone(_) | Op::Resize(..) | Op::ResizeWith(_) | Op::Append(_) => Some(1),
                 Op::ExtendWithinClone(..) if kind != Kind::Rev => Some(1),
-                Op::DedupBy if kind != Kind::Rev => Some(4),
+                Op::DedupBy if kind != Kind::Rev => Some(if self.rng.chance(1, 2) { 4 } else { 5 }),
                 _ => None,
             };
             match route {
@@ -419,18 +468,28 @@ impl Ctx {
                         1 => "route:try_ twin",
                         2 => "route:push_mut/insert_mut",
                         3 => "route:push_with",
-                        _ => "route:dedup()",
+                        4 => "route:dedup()",
+                        _ => "route:dedup_by(semantic, non-transitive predicate)",
                     });
                     Op::Alt(k, Box::new(op))
                 }
                 None => op,
             }
-        } else if kind == Kind::Boxed && op == Op::DedupBy && self.rng.chance(1, 3) {
-            self.count("route:dedup()");
-            Op::Alt(4, Box::new(op))
+        } else if kind == Kind::Boxed && op == Op::DedupBy && self.rng.chance(1, 2) {
+            if self.rng.chance(1, 2) {
+                self.count("route:dedup()");
+                Op::Alt(4, Box::new(op))
+            } else {
+                self.count("route:dedup_by(semantic, non-transitive predicate)");
+                Op::Alt(5, Box::new(op))
+            }
         } else {
             op
         };
+        if matches!(op, Op::Alt(5, _)) {
+            // the semantic predicate answers by itself; what it answered is recorded during the run
+            oracle.clear();
+        }
         // faults of the primary run: a panicking callback / a panicking Drop now and then
         // profile `std`: clean runs only (compared with std::vec::Vec); `drops` / `deep`: more faults
         let (pp, pb) = match self.profile.as_str() {
@@ -511,6 +570,9 @@ impl Ctx {
             let stash_before = stash_len();
             let zc_before = zcounts();
             set_oracle(&step.oracle, &step.bombs);
+            let _ = take_args();
+            let _ = take_std_args();
+            let _ = take_observed();
             if zst && !step.bombs.is_empty() {
                 set_zbomb(Some(step.bombs[0] % 3));
             }
@@ -529,6 +591,8 @@ impl Ctx {
             };
             let used_n = used();
             clear_oracle();
+            let iargs = take_args();
+            let observed = take_observed();
             let exit = match &r {
                 Ok(s) if s.is_empty() => "ret".to_string(),
                 Ok(s) => format!("ret:{s}"),
@@ -549,7 +613,7 @@ impl Ctx {
                 "op {} {h}{} o={} bombs={} capin={}",
                 step.op.name(),
                 step.op.args(),
-                oracle_text(&step.oracle),
+                if matches!(&step.op, Op::Alt(5, _)) { oracle_text(&observed.iter().map(|b| Oc::Ret(*b)).collect::<Vec<_>>()) } else { oracle_text(&step.oracle) },
                 csv(&step.bombs),
                 if post_cap == usize::MAX { 0 } else { post_cap }
             );
@@ -575,14 +639,16 @@ impl Ctx {
             } else if !zst {
                 let _ = writeln!(
                     self.out,
-                    "{optext} => ids={} len={} cap={} drops={} esc={} exit={} used={}",
+                    "{optext} => ids={} len={} cap={} drops={} esc={} exit={} used={}{}",
                     csv(&post),
                     post_len,
                     post_cap,
                     csv(&drops),
                     csv(&esc),
                     exit,
-                    used_n
+                    used_n,
+                    // the pairs `same_bucket` was handed (the model computes them as well)
+                    if step.op.name() == "dedup_by" { format!(" args={}", args_text(&iargs)) } else { String::new() }
                 );
             } else {
                 let _ = writeln!(self.out, "zop {} {h}{} => len={} exit={} used={}", step.op.name(), step.op.args(), post_len, exit, used_n);
@@ -781,6 +847,16 @@ impl Ctx {
                             }
                         } else if exit != want_exit || post != sv {
                             self.oracle("C08", format!("{} `{optext}` from ids={}: std::vec::Vec gives ids={} {want_exit}, the implementation ids={} {exit}", spec.kind.tok(), csv(&pre), csv(&sv), csv(&post)));
+                            if (spec.kind == Kind::Mut || spec.kind == Kind::Rev) && step.op.grows() {
+                                // C15: an exclusive-borrow collection yields exactly the elements that were pushed, also when
+                                // filling had to continue in a bigger chunk
+                                self.oracle("C15", format!("{} `{optext}` from ids={} (capacity {pre_cap} -> {post_cap}): holds ids={} afterwards, expected ids={}", spec.kind.tok(), csv(&pre), csv(&post), csv(&sv)));
+                            }
+                        }
+                        let sargs = take_std_args();
+                        let has_cb = matches!(&step.op, Op::Retain | Op::DedupBy | Op::DedupByKey | Op::ExtractIf(_) | Op::PopIf | Op::MapInPlace) || matches!(&step.op, Op::Alt(4 | 5, _));
+                        if has_cb && !zst && spec.kind != Kind::Rev && iargs != sargs {
+                            self.oracle("C08", format!("{} `{optext}` from ids={}: the callback was handed {} — std::vec::Vec hands its callback {}", spec.kind.tok(), csv(&pre), args_text(&iargs), args_text(&sargs)));
                         }
                         if used_n != consumed {
                             self.oracle("C08", format!("{} `{optext}`: {} callback invocations, std::vec::Vec makes {}", spec.kind.tok(), used_n, consumed));
